@@ -50,6 +50,12 @@ Definition set_payload (b : bundle) (data : list byte) : bundle :=
   | Some _ => mkbundle (b_primary b) (update_first (sel_type PAYLOAD_BLOCK) (fun c => set_c_data c (Data data)) (b_canonicals b))
   | None => set_payload_block b (new_payload_block 0 data)
   end.
+(* what a forwarding node does with a received bundle before it sends it on (REENC lines of C05): a new payload through set_payload and a
+   new lifetime through the public field *)
+Definition set_p_lifetime (p : primary) (l : N) : primary :=
+  mkprimary (p_version p) (p_flags p) (p_crc p) (p_dst p) (p_src p) (p_rpt p) (p_time p) (p_seq p) l (p_frag_off p) (p_total_len p).
+Definition reenc (b : bundle) (d : list byte) (l : N) : bundle :=
+  let b1 := set_payload b d in mkbundle (set_p_lifetime (b_primary b1) l) (b_canonicals b1).
 (* bundle.rs:291-296 *)
 Definition set_crc (b : bundle) (code : N) : bundle :=
   mkbundle (set_p_crc (b_primary b) (crc_of_type code)) (map (fun c => set_c_crc c (crc_of_type code)) (b_canonicals b)).
